@@ -212,7 +212,7 @@ def pScript (s : String) : Option (List Step) :=
   if s == "-" then some [] else
   s.toList.mapM (fun c =>
     if c = 'p' then some Step.parse else if c = 's' then some Step.skip
-    else if c = 'h' then some Step.headerBody else if c = 'k' then some Step.headerSkip else none)
+    else if c = 'h' then some Step.headerBody else if c = 'w' then some Step.headerBody else if c = 'k' then some Step.headerSkip else none)
 
 def sItem : Item → List String
   | .q q => "Q" :: sQuestion q
